@@ -16,7 +16,7 @@ def run(ctx, prefix, files_cfgs, zip_cfgs, nrec, rule, floor_files=2000, floor_z
     ctx.build_harness()
     scratch(ctx)
     for cfg in files_cfgs:
-        gen_and_replay(ctx, "modzip", "ModZipGen", cfg, floor=floor_files, workers=16, timeout=3400, heap="12g", xss="256m")
+        gen_and_replay(ctx, "modzip", "ModZipGen", cfg, floor=40 if cfg.endswith("_sizes") else floor_files, workers=16, timeout=3400, heap="12g", xss="256m")
     for cfg in zip_cfgs:
         gen_and_replay(ctx, "modzip", "ModZipGen", cfg, floor=floor_zip, workers=16, timeout=3400, heap="12g", xss="256m")
     record_and_validate(ctx, "modzip", "ModZipTrace", "ModZipTrace", nrec, shards=14, timeout=3000)
